@@ -130,4 +130,7 @@ class LocalNode(BaseNode):
                 # Subindex does not exist
                 raise SdoAbortedError(0x06090011)
             obj = obj[subindex]
+        elif subindex != 0:
+            # A plain variable only has sub-index 0
+            raise SdoAbortedError(0x06090011)
         return obj
